@@ -44,6 +44,7 @@ def _call(gd, case, ell, swap=False, shift=0.0):
     a = [case["lat1"], case["lon1"] + shift, case["lat2"], case["lon2"] + shift]
     if swap:
         a = a[2:] + a[:2]
+    a = [S.as_kind(v, case.get("num", "float")) for v in a]       # Python ints / numpy float64 where they hold the value
     # the default ellipsoid is GRS80: leave the argument out when that is what the case asks for
     r = gd.vincinv(*a) if (case["ell"] == "grs80" and case.get("defaults")) else gd.vincinv(*a, ell)
     if not (isinstance(r, tuple) and len(r) == 3):
@@ -181,7 +182,7 @@ def _wrap_lon(x):
 @st.composite
 def pairs(draw):
     kind = draw(st.sampled_from(["independent", "independent", "independent", "near", "near", "meridian", "parallel",
-                                 "equatorial", "polar", "dateline", "coincident", "over-pole"]))
+                                 "equatorial", "polar", "dateline", "coincident", "over-pole", "near-antipodal", "near-antipodal"]))
     lat1, lon1 = draw(lat_s), draw(lon_s)
     if kind == "independent":
         lat2, lon2 = draw(lat_s), draw(lon_s)
@@ -211,10 +212,21 @@ def pairs(draw):
             lon1, lon2 = lon2, lon1
     elif kind == "coincident":
         lat2, lon2 = lat1, lon1
+    elif kind == "near-antipodal":
+        # oblique pairs 2 .. 8 degrees short of antipodal: where the inverse iteration converges slowest
+        lat1 = draw(S.floats(-75.0, 75.0))
+        off = draw(S.floats(2.05, 8.0))
+        brg = draw(S.floats(0.0, 2 * math.pi))
+        lat2 = _clamp_lat(-lat1 + off * math.cos(brg))
+        lon2 = _wrap_lon(lon1 + 180.0 + off * math.sin(brg) / max(math.cos(math.radians(lat1)), 0.2))
     else:   # the two points on opposite meridians: the geodesic passes over (or near) a pole
         lat2 = draw(lat_s)
         lon2 = _wrap_lon(lon1 + 180.0 + draw(st.sampled_from([0.0, 1e-9, -1e-9, 0.001, -0.001])))
-    return {"lat1": lat1, "lon1": lon1, "lat2": lat2, "lon2": lon2, "ell": draw(ell_s), "pair": kind, "defaults": draw(st.booleans())}
+    num = draw(S.num_kind)
+    if num == "int" and draw(st.booleans()):
+        lat1, lon1, lat2, lon2 = (float(round(v)) for v in (lat1, lon1, lat2, lon2))       # whole degrees, passed as ints
+    return {"lat1": lat1, "lon1": lon1, "lat2": lat2, "lon2": lon2, "ell": draw(ell_s), "pair": kind, "defaults": draw(st.booleans()),
+            "num": num}
 
 
 @st.composite
@@ -235,6 +247,10 @@ def _classes(case):
                ("sep<170deg" if sep < 170 else "sep>=170deg"))))
     if (case["lon1"] > 150 and case["lon2"] < -150) or (case["lon2"] > 150 and case["lon1"] < -150):
         out.append("straddles+-180")
+    if 172.0 <= sep <= 178.0 and abs(case["lon1"] - case["lon2"]) % 180.0 > 0.5:
+        out.append("oblique 172-178 deg")
+    if case.get("num", "float") != "float":
+        out.append("num:" + case["num"])
     return out
 
 
